@@ -560,11 +560,44 @@ Proof.
   destruct (kind_eqb (dtype_of_scalar d) dv) eqn:Hk.
   - left. injection H as <-. split; reflexivity.
   - right. destruct (numeric dv && numeric (dtype_of_scalar d)).
-    + unfold bind in H. destruct (np_cast dv d) as [c|e] eqn:Hc; [|discriminate].
-      destruct (np_eqb dv c d) eqn:He; injection H as <-.
-      * left. exists c. repeat split; assumption.
-      * right. reflexivity.
+    + destruct (np_cast dv d) as [c|e] eqn:Hc.
+      * destruct (np_eqb dv c d) eqn:He; injection H as <-.
+        -- left. exists c. repeat split; assumption.
+        -- right. reflexivity.
+      * right. destruct e; try discriminate; injection H as <-; reflexivity.
     + right. injection H as <-. reflexivity.
+Qed.
+
+(* converting a numeric default to a numeric values type fails only the way the code catches *)
+Lemma np_cast_numeric_raises : forall dv d e,
+  numeric dv = true -> numeric (dtype_of_scalar d) = true -> dv <> DUInt ->
+  np_cast dv d = Raise e -> e = ValueError \/ e = OverflowError.
+Proof.
+  intros dv d e Hn Hd Hu H.
+  destruct dv; try discriminate; try (now elim Hu);
+    destruct d as [|b|z|f|s]; try discriminate; clear Hd; cbn [np_cast] in H; try discriminate.
+  - destruct (in_int64 z); [discriminate|]. injection H as <-. now right.
+  - unfold bind in H. destruct f as [|sg|sg|m ex]; cbn [trunc_fl] in H.
+    + injection H as <-. now left.
+    + injection H as <-. now right.
+    + destruct (in_int64 0); [discriminate|]. injection H as <-. now right.
+    + destruct (0 <=? ex)%Z.
+      * destruct (in_int64 (m * 2 ^ ex)); [discriminate|]. injection H as <-. now right.
+      * destruct (in_int64 (Z.quot m (2 ^ (- ex)))); [discriminate|]. injection H as <-. now right.
+  - unfold bind, float_of_Z in H. destruct (z =? 0)%Z; [discriminate|].
+    destruct (round53 (Z.abs z)) as [q sh].
+    destruct (1024 <? Z.log2 q + 1 + sh)%Z; [|discriminate]. injection H as <-. now right.
+Qed.
+
+(* the dtype choice itself never raises (F-C09-2, fixed by cf4ef68) *)
+Lemma mat_dtype_total : forall dv d, dv <> DUInt -> exists dt, mat_dtype dv d = Ok dt.
+Proof.
+  intros dv d Hu. unfold mat_dtype.
+  destruct (kind_eqb (dtype_of_scalar d) dv); [eexists; reflexivity|].
+  destruct (numeric dv && numeric (dtype_of_scalar d)) eqn:Hn; [|eexists; reflexivity].
+  apply andb_true_iff in Hn. destruct Hn as [Hn1 Hn2].
+  destruct (np_cast dv d) as [c|e] eqn:Hc; [eexists; reflexivity|].
+  destruct (np_cast_numeric_raises dv d e Hn1 Hn2 Hu Hc) as [-> | ->]; eexists; reflexivity.
 Qed.
 
 Lemma sparse_dtype_holds : forall dv d dt,
@@ -622,12 +655,13 @@ Proof.
   rewrite Forall_forall in Harr. apply Harr. eapply scan_subset. exact Hp.
 Qed.
 
-Lemma sparse_np_total_partial : forall l d dv arr dt,
-  np_array l = Ok (dv, arr) -> np_cmp_guard dv d = Ok tt -> mat_dtype dv d = Ok dt ->
+Lemma sparse_np_total_partial : forall l d dv arr,
+  np_array l = Ok (dv, arr) -> np_cmp_guard dv d = Ok tt ->
   exists o, sparse_np l d None = Ok o.
 Proof.
-  intros l d dv arr dt Hnp Hg Hm.
+  intros l d dv arr Hnp Hg.
   destruct (np_array_has_dtype l dv arr Hnp) as [Harr [Hu _]].
+  destruct (mat_dtype_total dv d Hu) as [dt Hm].
   rewrite (sparse_np_unfold l d dv arr Hnp), Hg. unfold bind at 1. rewrite Hm. unfold bind at 1.
   destruct (sparse_dtype_holds dv d dt Hu Hm) as [_ [c [Hc _]]]. rewrite Hc. unfold bind at 1.
   rewrite (stored_cast_id dv d dt arr Hu Hm Harr). unfold bind. eexists. reflexivity.
@@ -660,11 +694,14 @@ Proof.
 Qed.
 
 (* the guards of the partial theorems are needed: witnesses evaluated on the model *)
-Lemma sparse_np_raises_mat :
-  sparse_np [VInt 1; VInt 2; VInt 3] (VFloat FNaN) None = Raise ValueError /\
-  sparse_np [VInt 1; VInt 2; VInt 3] (VInt (2 ^ 63)) None = Raise OverflowError /\
-  sparse_np [VInt 1; VInt 2; VInt 3] (VFloat (FFin 1 100)) None = Raise OverflowError.
-Proof. repeat split; vm_compute; reflexivity. Qed.
+(* the F-C09-2 witnesses: the default has no counterpart in int64, the result is an object array *)
+Lemma sparse_np_unconvertible_default :
+  sparse_np [VInt 1; VInt 2; VInt 3] (VFloat FNaN) None
+  = Ok (mkobs [[VInt 1; VInt 2; VInt 3]; [VInt 1; VInt 2; VInt 3]] [[0; 1; 2]] [DInt; DObj]) /\
+  sparse_np [VInt 1; VInt 2] (VInt (2 ^ 63)) None = Ok (mkobs [[VInt 1; VInt 2]; [VInt 1; VInt 2]] [[0; 1]] [DInt; DObj]) /\
+  sparse_np [VInt 1; VInt 2] (VFloat (FFin 1 100)) None = Ok (mkobs [[VInt 1; VInt 2]; [VInt 1; VInt 2]] [[0; 1]] [DInt; DObj]) /\
+  sparse_np [VInt 1; VInt 2] (VFloat (FInf false)) None = Ok (mkobs [[VInt 1; VInt 2]; [VInt 1; VInt 2]] [[0; 1]] [DInt; DObj]).
+Proof. repeat (split; [vm_compute; reflexivity|]). vm_compute; reflexivity. Qed.
 
 Lemma sparse_np_raises_init :
   sparse_np [VBool true; VBool false] (VInt (2 ^ 70)) None = Raise OverflowError /\
